@@ -33,6 +33,19 @@ class Obj:
         return "Obj(" + ", ".join(f"{k}={v!r}" for k, v in sorted(self.__dict__.items())) + ")"
 
 
+class Touchy(Obj):
+    """An object whose == is anything but inert: it logs the comparison and refuses to give a
+    truth value for a foreign operand (numpy-array style)."""
+
+    def __eq__(self, other):
+        LOG.append(("Touchy.__eq__", type(other).__name__))
+        if not isinstance(other, Touchy):
+            raise TypeError("comparison with a foreign object")
+        return self.__dict__ == other.__dict__
+
+    __hash__ = None
+
+
 def E(k, v):
     if len(LOG) > 5000:
         raise MemoryError("side-effect log overflow (runaway loop)")
@@ -1129,6 +1142,12 @@ def _input_strats():
     return _INPUT_STRATS
 
 
+def st_integers_0_3():
+    from hypothesis import strategies as st
+
+    return st.integers(0, 3)
+
+
 def draw_inputs(draw, fn):
     """Draw the argument recipe of one call: dict name -> recipe."""
     S = _input_strats()
@@ -1138,7 +1157,7 @@ def draw_inputs(draw, fn):
         if n == "xs":
             out[n] = draw(S["xs"])
         elif n == "o":
-            out[n] = ("obj", draw(S["small"]))
+            out[n] = ("touchy" if draw(st_integers_0_3()) == 0 else "obj", draw(S["small"]))
         elif kind == "var":
             out[n] = ("varargs", draw(S["varargs"]))
         elif kind == "kw":
@@ -1180,6 +1199,8 @@ def build_args(fn, recipe, glb):
             return [tuple(p) for p in v]
         if k == "obj":
             return glb["Obj"](x=v, z=0)
+        if k == "touchy":
+            return glb["Touchy"](x=v, z=0)
         raise ValueError(r)
 
     skipped = False
@@ -1197,7 +1218,7 @@ def build_args(fn, recipe, glb):
                 kwargs[key] = 1
             continue
         val = mk(r)
-        if r[0] in ("list", "dict", "obj", "pairs"):
+        if r[0] in ("list", "dict", "obj", "touchy", "pairs"):
             watch[n] = val
         if kind in ("posonly", "pos") and not skipped:
             args.append(val)
